@@ -90,12 +90,12 @@ def guard_inner(t):
 
 # ---------------------------------------------------------------------------------------------
 
+_SHORT_RE = re.compile(r'(?<![A-Za-z0-9_])desync::')
+
+
 def short(name):
-    """Readable short form of a fn name: drops the crate/module prefix of in-crate items."""
-    name = name.replace('desync::scheduler::desync_scheduler::', '').replace('desync::scheduler::core::', '')
-    name = re.sub(r'desync::scheduler::\w+::', '', name)
-    name = name.replace('desync::desync::', '').replace('desync::pipe::', 'pipe::')
-    return name
+    """Readable short form of a fn name: drops the crate prefix of in-crate items."""
+    return _SHORT_RE.sub('', name)
 
 
 class Fn:
@@ -523,6 +523,8 @@ def expr_fields(e):
 class Facts:
     def __init__(self, j):
         from .flatten import flatten
+        from .canon import canonicalize
+        j = canonicalize(j)
         j, helpers = flatten(j)
         self.helpers = helpers
         self.j = j
@@ -585,6 +587,16 @@ class Facts:
     def variants(self, adt_path):
         a = self.adts.get(adt_path)
         return [v['name'] for v in a['variants']] if a else []
+
+    def trait_impl_methods(self, trait_path, method):
+        """Names of the bodies implementing `method` of an in-crate trait (canonical names: `Type::method`)."""
+        out = []
+        for i in self.impls:
+            if i.get('trait') == trait_path:
+                for it in i['items']:
+                    if it.endswith('::' + method):
+                        out.append(it)
+        return out
 
     def impls_of(self, trait_suffix=None, self_head=None):
         out = []
